@@ -70,14 +70,19 @@ def run(pid, sources, seed=0, jobs=None):
     # the independently written changes kept under seeded/ (must be flagged by the check of their own property) and the
     # behaviour-preserving refactorings kept under twins/ (must be silent for every property) are replayed in memory
     from . import patches
+    import json as _json
+    with open(os.path.join(os.path.dirname(os.path.abspath(__file__)), "accepted.json")) as fh:
+        accepted = _json.load(fh)
     for vid, prop, text, meta in patches.stored("seeded"):
-        if prop != pid:
+        if prop != pid or vid not in accepted["seeds"]:
             continue
         if meta.get("status") == "retired":
             twins.append({"id": f"seed:{vid}(retired)", "props": [pid], "patch": text})
         else:
             muts.append({"id": f"seed:{vid}", "props": [pid], "rules": [""], "patch": text})
     for vid, prop, text, meta in patches.stored("twins"):
+        if vid not in accepted["twins"]:
+            continue
         twins.append({"id": f"twin:{vid}", "props": ["*"], "patch": text})
     rnd = random.Random(seed)
     rnd.shuffle(muts)
